@@ -578,6 +578,29 @@ func (fr *Frame) enterLoop(li *loopInfo, b *ssa.BasicBlock, ins []edge, cur *Sta
 	locals := fr.localAllocSet()
 	ms := map[string]bool{}
 	vc.E.instrsModSet(ms, fr.fn, blocks, locals)
+	// calls through a function-valued parameter that is bound to a statically known closure (inlined callee that
+	// was passed a callback): the callback's effects belong to the loop body
+	for _, blk := range blocks {
+		for _, instr := range blk.Instrs {
+			var cc *ssa.CallCommon
+			switch in := instr.(type) {
+			case *ssa.Call:
+				cc = &in.Call
+			case *ssa.Defer:
+				cc = &in.Call
+			}
+			if cc == nil {
+				continue
+			}
+			if p, ok := cc.Value.(*ssa.Parameter); ok {
+				if v, ok := fr.regs[p]; ok && v.Clo != nil && v.Clo.Fn != nil {
+					for k := range vc.E.ModSet(v.Clo.Fn) {
+						ms[k] = true
+					}
+				}
+			}
+		}
+	}
 	st := cur.clone()
 	if len(li.mods) > 0 {
 		// user-supplied loop frame: only these locations change (checked at every back edge)
@@ -729,6 +752,46 @@ func (fr *Frame) havocGo(c *ssa.CallCommon, st *State) {
 		return
 	}
 	fn := mc.Fn.(*ssa.Function)
+	// a goroutine body with its own contract (`//@ func pkg.F$N`) and a `modifies` frame: exactly those locations
+	// become arbitrary (the frame is an obligation of the body's own verification). Names in the frame denote the
+	// captured variables' values at the `go` statement.
+	if fc := vc.E.Contracts[FuncKey(fn)]; fc != nil && len(fc.Of("modifies")) > 0 {
+		env := fr.contractEnv(st, True)
+		ok := true
+		for i, b := range mc.Bindings {
+			if i >= len(fn.FreeVars) {
+				break
+			}
+			fv := fn.FreeVars[i]
+			v := fr.get(b)
+			if pt, isPtr := fv.Type().Underlying().(*types.Pointer); isPtr && !types.Identical(fv.Type(), b.Type()) {
+				_ = pt
+				ok = false // unexpected shape
+			} else if _, isAlloc := b.(*ssa.Alloc); isAlloc {
+				// captured by reference: the name denotes the variable's current content
+				if pt, isPtr := b.Type().Underlying().(*types.Pointer); isPtr {
+					v = vc.loadAddr(st, vc.addrOfPointer(v, pt.Elem()))
+				}
+			}
+			env.vars[fv.Name()] = v
+		}
+		if ok {
+			failed := false
+			for _, cl := range fc.Of("modifies") {
+				for _, loc := range cl.Locs {
+					if err := env.havocLoc(loc, st); err != nil {
+						vc.contractError(cl, err)
+						failed = true
+					}
+				}
+			}
+			if !failed {
+				vc.UsedAssumed["go statement: effects of "+FuncKey(fn)+" limited to its contract's `modifies` frame (checked with the body; interleavings not modelled, A-SEQ)"] = true
+				return
+			}
+		}
+	}
+	pre := st.clone()
 	written := map[*ssa.FreeVar]bool{}
 	atomicW := map[*ssa.FreeVar]bool{}
 	atomicT := map[*ssa.FreeVar][]types.Type{} // concrete types stored into a captured atomic.Value (nil entry: unknown)
@@ -817,6 +880,36 @@ func (fr *Frame) havocGo(c *ssa.CallCommon, st *State) {
 			out[i] = Ite(pick, nv.Ts[i], oldv.Ts[i])
 		}
 		vc.storeAddr(st, a, Val{Typ: emptyIface, Ts: out})
+	}
+	// guarantee conditions: the `ensures` clauses of the goroutine body's contract (two-state, old = the state at the
+	// `go` statement) are assumed for the havocked state. Tagged clauses are obligations of the body's own
+	// verification; untagged ones are listed as unchecked assumptions. (Intermediate states are not modelled: A-SEQ.)
+	if fc := vc.E.Contracts[FuncKey(fn)]; fc != nil && len(fc.Of("ensures")) > 0 && pre != nil {
+		env := fr.contractEnv(st, True)
+		env.old = pre
+		for i, b := range mc.Bindings {
+			if i >= len(fn.FreeVars) {
+				break
+			}
+			v := fr.get(b)
+			if _, isAlloc := b.(*ssa.Alloc); isAlloc {
+				if pt, isPtr := b.Type().Underlying().(*types.Pointer); isPtr {
+					v = vc.loadAddr(st, vc.addrOfPointer(v, pt.Elem()))
+				}
+			}
+			env.vars[fn.FreeVars[i].Name()] = v
+		}
+		for _, cl := range fc.Of("ensures") {
+			g, err := env.evalBool(cl.Expr)
+			if err != nil {
+				vc.contractError(cl, err)
+				continue
+			}
+			vc.assume(True, g)
+			if len(cl.Tags) == 0 {
+				vc.UsedAssumed["unchecked (untagged) guarantee of goroutine "+FuncKey(fn)+": "+cl.Expr.String()] = true
+			}
+		}
 	}
 }
 
